@@ -306,8 +306,15 @@ theorem tryEnqueue_closed {s : St} (it : Item) (hc : s.isClosed = true) :
     tryEnqueue s it = (s, false) := by
   simp [tryEnqueue, hc]
 
+theorem tryEnqueue_open {s : St} (it : Item) (hc : s.isClosed = false) :
+    (tryEnqueue s it).2 = true ∧ (tryEnqueue s it).1.accepted = s.accepted ++ [it] := by
+  unfold tryEnqueue
+  rw [if_neg (by simp [hc])]
+  dsimp only
+  split <;> simp
+
 theorem tryEnqueue_frame (s : St) (it : Item) :
-    (tryEnqueue s it).1.doners = s.doners ∧ (tryEnqueue s it).1.closers = s.closers
+    (tryEnqueue s it).1.doners = s.doners ∧ (tryEnqueue s it).1.doneSnap = s.doneSnap
       ∧ (tryEnqueue s it).1.executed = s.executed := by
   unfold tryEnqueue
   split
@@ -370,7 +377,7 @@ theorem opsInv_tryEnqueue {s : St} (h : OpsInv s) (it : Item) (hn : it ∉ s.acc
           nodup := hnd
           closed := fun c pc hc hne => (hcl1 c pc hc hne).elim
           closerRet := fun c hc => (hcl1 c _ hc (by simp)).elim
-          done := h.done }
+          done := h.done.snoc_acc [it] }
 
 /-! ### worker steps -/
 
@@ -407,7 +414,7 @@ theorem OpsInv.worker_step {s : St} (h : OpsInv s) {w : Nat} {pc pc' : WPc}
       nodup := h.nodup
       closed := h.closed
       closerRet := h.closerRet
-      donerRet := fun d hd => hex _ (h.donerRet d hd) }
+      done := h.done.mono_ex ex hex }
 
 theorem step_preserves {s s' : St} {a : Action} (h : OpsInv s) (hs : step s a = some s') :
     OpsInv s' := by
@@ -423,19 +430,36 @@ theorem step_preserves {s s' : St} {a : Action} (h : OpsInv s) (hs : step s a = 
     simp only [step] at hs
     split at hs
     · rename_i hd
+      have hdlt : d < s.doners.length := by
+        rcases Nat.lt_or_ge d s.doners.length with h1 | h1
+        · exact h1
+        · rw [List.getElem?_eq_none h1] at hd; cases hd
       split at hs
       · cases hs
       · rename_i hn
         cases hs
         have hinv := opsInv_tryEnqueue h (.waiter d) hn
-        obtain ⟨hdo, _, hex⟩ := tryEnqueue_frame s (.waiter d)
-        refine hinv.with_doners _ ?_
-        intro d' hd'
-        rcases getElem?_set_cases hd' with h1 | h1
-        · split at h1 <;> cases h1
-        · rw [hdo] at h1
-          rw [hex]
-          exact h.donerRet d' h1
+        obtain ⟨hdo, hsn, hex⟩ := tryEnqueue_frame s (.waiter d)
+        refine hinv.with_done _ _ ?_
+        rw [hdo, hsn, hex]
+        cases hcl : s.isClosed with
+        | false =>
+          obtain ⟨hok, hacc⟩ := tryEnqueue_open (.waiter d) hcl
+          rw [hok, hacc]
+          exact h.done.begin hdlt _ _ _ (fun x hx => List.mem_append_left _ hx)
+            (fun _ => ⟨[], by simp⟩) (fun hr => by simp at hr)
+        | true =>
+          rw [tryEnqueue_closed (.waiter d) hcl]
+          have := h.done.begin hdlt
+            (match s.busy with | none => DPc.returned | some g => DPc.drainWaiting g) s.accepted []
+            (fun x hx => by simpa using hx)
+            (fun hw => by split at hw <;> cases hw)
+            (fun hr => by
+              split at hr
+              · rename_i hb
+                rw [h.executed_eq_of_idle hb]; exact fun x hx => hx
+              · cases hr)
+          simpa [setAt] using this
     · cases hs
   | doneWake d =>
     simp only [step] at hs
@@ -443,15 +467,36 @@ theorem step_preserves {s s' : St} {a : Action} (h : OpsInv s) (hs : step s a = 
     · split at hs
       · rename_i hd hex
         cases hs
-        refine h.with_doners _ ?_
-        intro d' hd'
-        rw [setAt, List.getElem?_set] at hd'
-        split at hd'
-        · rename_i heq
-          subst heq
-          exact hex
-        · exact h.donerRet d' hd'
+        refine h.with_doners _ (h.done.set_pc d _ (by simp) ?_)
+        intro _ snap hsn
+        obtain ⟨snap', post, h1, h2⟩ := h.done.donerWait d hd
+        rw [h1] at hsn
+        cases hsn
+        have hf := h.fifo
+        rw [List.append_assoc] at hf
+        exact mem_of_prefix_before h.nodup hf h2 hex
       · cases hs
+    · cases hs
+  | doneDrainWake d =>
+    simp only [step] at hs
+    split at hs
+    · split at hs
+      · cases hs
+        exact h.with_doners _ (h.done.set_pc d _ (by simp) (fun hr => by cases hr))
+      · cases hs
+    · cases hs
+  | doneRecheck d =>
+    simp only [step] at hs
+    split at hs
+    · split at hs
+      · rename_i hb
+        cases hs
+        refine h.with_doners _ (h.done.set_pc d _ (by simp) ?_)
+        intro _ snap hsn x hx
+        rw [h.executed_eq_of_idle hb]
+        exact h.done.snapAcc d snap hsn x hx
+      · cases hs
+        exact h.with_doners _ (h.done.set_pc d _ (by simp) (fun hr => by cases hr))
     · cases hs
   | gcBegin c =>
     simp only [step] at hs
@@ -675,22 +720,7 @@ theorem OpsInv.worker_enabled {s : St} (h : OpsInv s) (hne : s.executed ≠ s.ac
       split <;> rfl
   | fin => cases hl
 
-theorem OpsInv.done_after {s : St} (h : OpsInv s) (d : Nat)
-    (hd : s.doners[d]? = some DPc.returned) (pre post : List Item)
-    (hacc : s.accepted = pre ++ [Item.waiter d] ++ post) : ∀ it ∈ pre, it ∈ s.executed := by
-  have hex := h.donerRet d hd
-  have hn := h.nodup
-  have hf := h.fifo
-  rw [List.append_assoc] at hf
-  rw [List.append_assoc] at hacc
-  rw [hf] at hacc hn
-  rcases List.append_eq_append_iff.mp hacc with ⟨a', h1, h2⟩ | ⟨c', h1, h2⟩
-  · -- pre = executed ++ a'  and the rest starts with a' : then waiter d is in the rest too
-    exfalso
-    have hmem : Item.waiter d ∈ heldL s.workers ++ s.queue := by
-      rw [h2]; simp
-    exact (List.nodup_append.mp hn).2.2 _ hex _ hmem rfl
-  · intro it hit
-    rw [h1]; simp [hit]
+theorem OpsInv.snap_length {s : St} (h : OpsInv s) : s.doneSnap.length = s.doners.length :=
+  h.done.snapLen
 
 end WebrtcVerif.Ops
